@@ -1388,6 +1388,79 @@ def list_literal_augments(fn) -> int:
     return count
 
 
+def list_augments(fn) -> int:
+    """`xs += e` -> `xs.extend(e)` when xs is a list in this function: a local only ever bound to list displays, or a receiver on which a
+    list-only method (append / extend / sort / insert) is called in the same function"""
+    LIST_ONLY = {"append", "extend", "sort", "insert"}
+    lists, others = set(), set()
+    for n in ast.walk(fn):
+        if isinstance(n, ast.Call) and isinstance(n.func, ast.Attribute) and n.func.attr in LIST_ONLY and isinstance(n.func.value, (ast.Name, ast.Attribute)):
+            lists.add(ast.unparse(n.func.value))
+        if isinstance(n, (ast.Assign, ast.AnnAssign)) and getattr(n, "value", None) is not None:
+            for t in (n.targets if isinstance(n, ast.Assign) else [n.target]):
+                if isinstance(t, ast.Name):
+                    v = n.value
+                    if isinstance(v, (ast.List, ast.ListComp)) or (isinstance(v, ast.Call) and isinstance(v.func, ast.Name) and v.func.id in ("list", "sorted")):
+                        lists.add(t.id)
+                    else:
+                        others.add(t.id)
+                elif isinstance(t, (ast.Tuple, ast.List)):
+                    others |= {x.id for x in ast.walk(t) if isinstance(x, ast.Name)}
+        if isinstance(n, (ast.For, ast.comprehension, ast.withitem, ast.NamedExpr)):
+            t = getattr(n, "target", None) or getattr(n, "optional_vars", None)
+            if t is not None:
+                others |= {x.id for x in ast.walk(t) if isinstance(x, ast.Name)}
+    lists -= others
+    count = 0
+    for body in _stmt_blocks(fn):
+        for i, s in enumerate(body):
+            if isinstance(s, ast.AugAssign) and isinstance(s.op, ast.Add) and isinstance(s.target, (ast.Name, ast.Attribute)) and ast.unparse(s.target) in lists \
+                    and not isinstance(s.value, ast.List):
+                recv = ast_copy(s.target)
+                recv.ctx = ast.Load()
+                new = ast.Expr(value=ast.Call(func=ast.Attribute(value=recv, attr="extend", ctx=ast.Load()), args=[s.value], keywords=[]))
+                ast.copy_location(new, s)
+                ast.fix_missing_locations(new)
+                body[i] = new
+                count += 1
+    return count
+
+
+def conditional_max(fn) -> int:
+    """`if a < b: a = b` (also `<=`, `b > a`, `not a > b`, `not a >= b`) -> `a = max(b, a)` ; the mirror image -> `a = min(b, a)`.
+    (totally ordered operands assumed for the negated forms: they are what such an update is written for)"""
+    count = 0
+    for body in _stmt_blocks(fn):
+        for i, s in enumerate(body):
+            if not (isinstance(s, ast.If) and not s.orelse and len(s.body) == 1 and isinstance(s.body[0], ast.Assign) and len(s.body[0].targets) == 1):
+                continue
+            a = s.body[0]
+            if not isinstance(a.targets[0], (ast.Name, ast.Attribute)):
+                continue
+            test, neg = s.test, False
+            while isinstance(test, ast.UnaryOp) and isinstance(test.op, ast.Not):
+                test, neg = test.operand, not neg
+            if not (isinstance(test, ast.Compare) and len(test.ops) == 1 and isinstance(test.ops[0], (ast.Lt, ast.LtE, ast.Gt, ast.GtE))):
+                continue
+            t, v = ast.unparse(a.targets[0]), ast.unparse(a.value)
+            l, r = ast.unparse(test.left), ast.unparse(test.comparators[0])
+            if t == v or {l, r} != {t, v} or not is_pure(a.value) or not is_pure(a.targets[0]):
+                continue
+            less = isinstance(test.ops[0], (ast.Lt, ast.LtE))      # left smaller than right
+            target_smaller = (less == (l == t)) != neg
+            tl = ast_copy(a.targets[0])
+            tl.ctx = ast.Load()
+            for x in ast.walk(tl):
+                if hasattr(x, "ctx"):
+                    x.ctx = ast.Load()
+            new = ast.Assign(targets=[a.targets[0]], value=ast.Call(func=ast.Name(id="max" if target_smaller else "min", ctx=ast.Load()), args=[a.value, tl], keywords=[]))
+            ast.copy_location(new, s)
+            ast.fix_missing_locations(new)
+            body[i] = new
+            count += 1
+    return count
+
+
 def joinpaths(fn) -> int:
     """`p.joinpath(a, b)` -> `p / a / b`"""
     count = 0
